@@ -401,12 +401,19 @@ def run(ctx):
                 recs.append(Rec(nm, [("reading", ft)] + [("aRatherLongFieldNameNumber%dOfRecordNumber%03d" % (f, j), P(["float32", "int64", "string", "uint8"][f % 4])) for f in range(7)]))
             steps = [("s%03d" % j, N(r.name)) for j, r in enumerate(recs)]
             return Pkg("Big", recs + [Proto("Flow", steps[:3] + [("items", S(N("ZLast")))] + steps[3:])], [], [], "big_" + tag)
+        def sch(m):
+            # the reference streams carry the schema text of the generated Python (one literal, never split); the C++ literal has to be the same text
+            py, cpp = m.py_schema("Flow"), m.cpp_schema("Flow")
+            if py != cpp:
+                ctx.violation("schema-literal-differs:cpp-vs-python:big", "a %d-byte schema is embedded as %d bytes in the generated C++ (truncated or altered): C++ readers compare against that text" % (len(py), len(cpp)),
+                              {"model_dir": m.root, "python_len": len(py), "cpp_len": len(cpp), "common_prefix": len(os.path.commonprefix([py, cpp]))})
+            return py
         for nrec in ((45,) if quick else (45, 110)):
             base = mk("base%d" % nrec, nrec, None, "int32")
             mbase = rt.prepare_model(ctx, "bigschema_base%d" % nrec, base, ["plain"])
             if mbase is None:
                 raise Inconclusive("big-schema base model did not build")
-            ctx.count("big-schema-bytes", len(mbase.schema("Flow")))
+            ctx.count("big-schema-bytes", len(sch(mbase)))
             for which in ("last", "middle", "first"):
                 pb = mk("%s%d" % (which, nrec), nrec, which, "uint32")
                 mb = rt.prepare_model(ctx, "bigschema_%s%d" % (which, nrec), pb, ["plain"])
@@ -415,18 +422,18 @@ def run(ctx):
                 for direction, (mw, mr) in (("base->edited", (mbase, mb)), ("edited->base", (mb, mbase))):
                     pw = mw.pkg.find("Flow")
                     vals = values.ValueGen(mw.codec, rng("C15big", which, direction), json_safe=True).steps(pw, stream_len=2)
-                    for fmt, data in (("bin", mw.codec.encode_stream(pw, mw.schema("Flow"), vals)), ("ndjson", ("\n".join(mw.codec.ndjson_lines(pw, mw.schema("Flow"), vals)) + "\n").encode())):
+                    for fmt, data in (("bin", mw.codec.encode_stream(pw, sch(mw), vals)), ("ndjson", ("\n".join(mw.codec.ndjson_lines(pw, sch(mw), vals)) + "\n").encode())):
                         for ep in (rt.CppEndpoint(mr, "plain"), rt.PyEndpoint(mr)):
                             r = ep.copy("Flow", fmt, "ndjson", data)
                             ctx.ev()
                             ctx.count("big-schema-neighbour")
                             ctx.case(("big-schema-neighbour", nrec, which, direction, fmt, ep.name))
                             refused(ctx, mr, r, ep.name, "ndjson", "two packages with a %d-byte schema that differ in one field type of the %s record of the schema (%s): the reader of one fed a %s stream of the other" % (
-                                len(mw.schema("Flow")), which, direction, fmt), {"class": "big-schema-neighbour:" + which, "fmt": fmt, "direction": direction})
+                                len(sch(mw)), which, direction, fmt), {"class": "big-schema-neighbour:" + which, "fmt": fmt, "direction": direction})
                 # own streams are still accepted (the oracle is not vacuous)
                 pw = mb.pkg.find("Flow")
                 vals = values.ValueGen(mb.codec, rng("C15bigown", which), json_safe=True).steps(pw, stream_len=2)
-                data = mb.codec.encode_stream(pw, mb.schema("Flow"), vals)
+                data = mb.codec.encode_stream(pw, sch(mb), vals)
                 for ep in (rt.CppEndpoint(mb, "plain"), rt.PyEndpoint(mb)):
                     r = ep.copy("Flow", "bin", "bin", data)
                     ctx.ev()
